@@ -136,6 +136,46 @@ Proof.
     apply elem_of_dom in Hin as [r Hr]. eauto.
 Qed.
 
+(* ---------------------------------------------------------------- WHO #channel *)
+Definition who_entry (s : shared) (c : conn) (client mask : str) (viewer : user) (kv : str * rank) : list str :=
+  match users s !! kv.1 with
+  | Some u => who_line cfg c client (Some (mask, kv.2)) kv.1 u viewer
+  | None => []
+  end.
+
+Lemma who_fold s c client mask viewer l : forall acc, (forall kv, kv ∈ l -> is_Some (users s !! kv.1)) ->
+  rfold (fun acc '(un, r) => let! u := get_user s un in Ok (acc ++ who_line cfg c client (Some (mask, r)) un u viewer)) l acc
+  = Ok (acc ++ concat (List.map (who_entry s c client mask viewer) l)).
+Proof.
+  induction l as [|[k v] l IH]; intros acc H; cbn [rfold List.map concat].
+  - now rewrite app_nil_r.
+  - destruct (H (k, v) (elem_of_list_here _ _)) as [u Hu]. cbn in Hu. unfold get_user at 1. rewrite Hu. cbn [rbind].
+    rewrite IH by (intros kv Hkv; apply H; now right). unfold who_entry at 2. cbn [fst snd]. rewrite Hu. now rewrite <- app_assoc.
+Qed.
+
+(* WHO with a channel name: one 352 per member of the channel (subject to the invisibility rule of
+   who_line), each with the member's rank prefix there, then 315; nothing but 315 for a secret
+   channel the viewer is not on or an absent one *)
+Theorem who_channel_spec s c nick viewer mask : InvS s ->
+  c_nick c = Some nick -> users s !! nick = Some viewer ->
+  contains c_star mask || contains c_qmark mask = false -> validate_channel mask = true ->
+  process_who cfg i s c mask =
+  hr s c (mine cfg i ((match chans s !! mask with
+                       | Some co => if negb (cm_secret (ch_modes co)) || bool_decide (nick ∈ dom (ch_users co))
+                                    then concat (List.map (who_entry s c (client_name c) mask viewer) (map_to_list (ch_users co)))
+                                    else []
+                       | None => []
+                       end) ++ [rpl_endofwho (client_name c) mask])).
+Proof.
+  intros I Hn Hv Hw Hvc. unfold process_who, own_nick, get_user. rewrite Hn. cbn [rbind]. rewrite Hv. cbn [rbind]. rewrite Hw, Hvc.
+  destruct (chans s !! mask) as [co|] eqn:Hco; [|reflexivity].
+  destruct (negb (cm_secret (ch_modes co)) || bool_decide (nick ∈ dom (ch_users co))); [|reflexivity].
+  rewrite (who_fold s c (client_name c) mask viewer (map_to_list (ch_users co)) []).
+  - reflexivity.
+  - intros [k v] Hkv. apply elem_of_map_to_list in Hkv. cbn.
+    destruct (is_cu s I mask co k Hco) as [u [Hu _]]; [now apply elem_of_dom_2 in Hkv|]. eauto.
+Qed.
+
 (* ---------------------------------------------------------------- agreement *)
 (* NAMES #ch shows n (to a viewer entitled to see it) iff WHOIS n may show #ch: both read one relation *)
 Theorem views_agree s n u ch co : InvS s -> users s !! n = Some u -> chans s !! ch = Some co ->
